@@ -21,6 +21,7 @@ EXPLANATION = (
     "away/sleep, intelligent auto, bypass, per-mode limits, AT4 turbo flag / control-method selection / group poll / ability fallbacks, AT5 zero-"
     "zone echo)."
     ' Rounds 7-8: R3 compares every call on the socket, the heartbeat manager and shutdown/init between the generations; R5 includes the shutdown rules (C15.R3), C10.R2/R4 and the quick-timer grid.'
+    ' Rounds 9-10: R5 also includes C09.R2 (both state machines admit the same frames in the same states) and C05.R6 (each generation splits the version text at its own separator).'
 )
 ASSUMPTIONS = ["the two generations are meant to be line-for-line siblings outside the documented differences (true of the pinned tree)"]
 FLOORS = {"C19.R1": 60, "C19.R2": 10, "C19.R3": 40, "C19.R5": 1, "C19.R4": 12}
